@@ -81,7 +81,31 @@ OK_VALUE = {"obj": "Doc", "fields": [
     ["nums", {"list": [{"int": 3}, {"int": 10}]}],
 ]}
 
+# --- attributes map + mixed wildcard content with nested generic elements (inside the fragment since c04f)
+GEN_DESC = {"classes": [
+    {"name": "G", "fields": [
+        _f("name", "str", {"type": "Attribute", "required": True}),
+        _f("extra", {"dict": 1}, {"type": "Attributes"}, default={"factory": "dict"}),
+        _f("nums", {"list": "int"}, {"type": "Element", "tokens": True}, **LIST),
+        _f("words", {"list": "str"}, {"type": "Attribute", "tokens": True}, **LIST),
+        _f("content", {"list": "object"}, {"type": "Wildcard", "mixed": True}, **LIST),
+        _f("tail", {"opt": "object"}, {"type": "Wildcard"}, **NONE),
+    ]},
+]}
+GEN_VALUE = {"obj": "G", "fields": [
+    ["name", {"str": "n"}],
+    ["extra", {"attrs": [["a", "1"], ["{urn:x}b", ""]]}],
+    ["nums", {"list": [{"int": 3}, {"int": -12}]}],
+    ["words", {"list": [{"str": "a"}, {"str": "é1"}]}],
+    ["content", {"list": [
+        {"any": {"qname": "{urn:o}w", "text": "t", "tail": None, "attrs": [["k", "v"]],
+                 "children": [{"any": {"qname": "c", "text": None, "tail": None, "attrs": [], "children": []}}]}},
+        {"str": "txt"}, {"int": 5}, None]}],
+    ["tail", {"any": {"qname": None, "text": None, "tail": "x", "attrs": [], "children": []}}],
+]}
+
 WITNESSES = {
+    "genw": (GEN_DESC, {"value": GEN_VALUE}),
     "sub": (SUB_DESC, {"value": SUB_VALUE, "other": SUB_OTHER, "good": SUB_GOOD}),
     "anyw": (ANY_DESC, {"value": ANY_VALUE}),
     "wrap": (WRAP_DESC, {"value": WRAP_VALUE, "good": WRAP_GOOD}),
